@@ -401,12 +401,18 @@ func (g *Gen) Scope(depth int) *Ty {
 func (g *Gen) OneOf(depth int, sc *scopeCtx) *Ty {
 	t := &Ty{T: "oneOf", IntKey: g.p(0.4), Disc: g.pick("_type", "kind", "a"), Inlined: g.p(0.4)}
 	n := 1 + g.R.Intn(3)
+	// keys include the zero values of the key types (0, "") and a negative integer
+	base := g.R.Intn(3) - 1
+	emptyKey := g.p(0.15)
 	for i := 0; i < n; i++ {
 		var key string
 		if t.IntKey {
-			key = strconv.Itoa(i + 1)
+			key = strconv.Itoa(base + i)
 		} else {
 			key = g.pick("x", "y", "z", "5")[0:1] + strconv.Itoa(i)
+			if emptyKey && i == 0 {
+				key = ""
+			}
 		}
 		var m *Ty
 		if sc != nil && len(sc.ids) > 0 && !t.Inlined && g.p(0.3) {
